@@ -215,6 +215,10 @@ class _Abort(BaseException):
     """Unwinds a parked client thread at the end of a behaviour."""
 
 
+class Runaway(RuntimeError):
+    """One call issued an absurd number of transactions (e.g. a flush loop that never empties the stack)."""
+
+
 class _Shim:
     """Stands in for the `logging` module inside event_stack.py: captures what logAndFlushEvents reports."""
 
@@ -386,6 +390,8 @@ class Recorder:
         st = self.local
         call = getattr(st, "call", None)
         op = call["op"] if call else (self._op_from_stack() or name)
+        if call is not None and len(call["recs"]) > 5000:
+            raise Runaway(f"{op}: more than 5000 transactions in one call")
         if self.gate is not None and getattr(st, "ctx", None) is not None:
             self.gate.park(st.ctx)          # wait until the driver grants this client one transaction
         key = plain_key(t.key) if t.key is not None else ""
